@@ -2,6 +2,8 @@ SPECIFICATION MCSpec
 CONSTANTS MaxOffers = 4
           MaxRankMC = 3
           MaxDerived = 1
-INVARIANTS TypeOK SetOnly RoundTrip MergedIsUnion BytesShape UnionLaw
-PROPERTIES InputsUntouched OfferTellsChange
+          MaxSnaps = 0
+          SnapOf = {}
+INVARIANTS TypeOK SetOnly RoundTrip MergedIsUnion BytesShape UnionLaw SnapOK
+PROPERTIES InputsUntouched OfferTellsChange SnapFrozen
 CHECK_DEADLOCK FALSE
